@@ -342,6 +342,11 @@ def r35(ctx):
         ctx.ob("R3.5", not bad, f"{b.name}/provide_secret/err-refuses",
                "the revoke counter can advance although the secret does not chain with earlier secrets",
                where=f"{b.file}:{ln}", sample="advance unreachable from Err(provide_secret)")
+        # ordering: the chain check is not made after the counter has already moved
+        late = [s for s in adv if fv.reaches(s[0], bi) and s[0] != bi]
+        ctx.ob("R3.5", not late, f"{b.name}/provide_secret/before-advance",
+               "the revoke counter is advanced before the secret's BOLT-3 chain consistency is checked; a refused "
+               "revocation leaves the counter moved", where=f"{b.file}:{ln}", sample="provide_secret precedes the advance")
         # index conversion and secret operand
         idx = strip_ref(fv.expr(c.args[1]))
         lin = atoms.linear(idx)
